@@ -189,13 +189,15 @@ def AffZ.bounded (a : AffZ) : Bool :=
   (a.1.toList.all fun x => decide (-entryBound ≤ x) && decide (x ≤ entryBound)) &&
   (a.2.toList.all fun x => decide (0 ≤ x) && decide (x < 24))
 
+/-- Digit of a matrix entry in `[-8, 8]`. -/
+def dig17 (x : Int) : Nat := (x + 8).toNat
+
 /-- Mixed-radix key (base 17 for the nine matrix entries, base 24 for the constant part); injective
 on bounded maps (`Proofs/OracleC07Table.lean`). -/
 def AffZ.key (a : AffZ) : Nat :=
-  let d (x : Int) : Nat := (x + entryBound).toNat
-  let m := a.1
-  let lin := d m.a + 17 * (d m.b + 17 * (d m.c + 17 * (d m.d + 17 * (d m.e + 17 * (d m.f + 17 * (d m.g + 17 * (d m.h + 17 * d m.i)))))))
-  a.2.x.toNat + 24 * (a.2.y.toNat + 24 * (a.2.z.toNat + 24 * lin))
+  a.2.x.toNat + 24 * (a.2.y.toNat + 24 * (a.2.z.toNat + 24 *
+    (dig17 a.1.a + 17 * (dig17 a.1.b + 17 * (dig17 a.1.c + 17 * (dig17 a.1.d + 17 * (dig17 a.1.e + 17 *
+      (dig17 a.1.f + 17 * (dig17 a.1.g + 17 * (dig17 a.1.h + 17 * dig17 a.1.i))))))))))
 
 /-- The images of a position under all operations. -/
 def images (ops : List HOp) (lin : M3) (org : Z3) : List AffZ := ops.map (imageZ lin org)
